@@ -1,7 +1,10 @@
 // Copyright 2014 The Prometheus Authors
 // Copyright 2019 TiKV Project Authors. Licensed under Apache-2.0.
 
+#[cfg(not(prometheus_verif_map))]
 use std::collections::btree_map::Entry as BEntry;
+#[cfg(prometheus_verif_map)]
+use crate::verif_map::BEntry;
 #[cfg(not(prometheus_verif_map))]
 use std::collections::hash_map::Entry as HEntry;
 #[cfg(prometheus_verif_map)]
@@ -9,10 +12,7 @@ use crate::verif_map::Entry as HEntry;
 #[cfg(not(prometheus_verif_map))]
 use std::collections::{BTreeMap, HashMap, HashSet};
 #[cfg(prometheus_verif_map)]
-use {
-    crate::verif_map::{HashMap, HashSet},
-    std::collections::BTreeMap,
-};
+use crate::verif_map::{BTreeMap, HashMap, HashSet};
 use std::sync::Arc;
 
 use parking_lot::RwLock;
